@@ -286,7 +286,7 @@ def run_tlc(
     cwd = cwd or SPEC_DIR
     meta = tempfile.mkdtemp(prefix="tlc-", dir=scratch())
     cmd = [
-        "java", "-XX:+UseParallelGC", f"-Xmx{heap}",
+        "java", "-XX:+UseParallelGC", f"-Xmx{heap}", "-Xss32m",
     ]
     if dfs_queue:
         cmd.append("-Dtlc2.tool.queue.IStateQueue=StateDeque")
@@ -587,3 +587,109 @@ def same_array(a, b, *, exact=True, rtol=1e-5, atol=1e-6) -> bool:
     if a.dtype.kind in "fc":
         return bool(np.array_equal(a, b, equal_nan=True))
     return bool(np.array_equal(a, b))
+
+
+# --------------------------------------------------------------------------------------------
+# pmap with a per-item watchdog: an item that does not finish within `timeout` seconds gets the
+# result HANG (its worker is killed and replaced) - needed when a regression makes a graph loop forever.
+# --------------------------------------------------------------------------------------------
+class _Hang:
+    def __repr__(self):
+        return "HANG"
+
+
+HANG = _Hang()
+
+
+class MachineryErrorResult:
+    """a worker raised: carried back to the parent instead of killing the pool"""
+
+    def __init__(self, msg):
+        self.msg = msg
+
+    def __repr__(self):
+        return f"WORKER-ERROR({self.msg})"
+
+
+def _safe_worker(fn, conn):
+    while True:
+        try:
+            msg = conn.recv()
+        except EOFError:
+            return
+        if msg is None:
+            return
+        i, item = msg
+        try:
+            conn.send((i, True, fn(item)))
+        except Exception as e:  # noqa: BLE001
+            conn.send((i, False, f"{type(e).__name__}: {e}"))
+
+
+def pmap_safe(fn: Callable, items: Sequence, timeout: float = 60.0, workers: int | None = None) -> list:
+    import multiprocessing as mp
+    from multiprocessing.connection import wait
+
+    items = list(items)
+    n = len(items)
+    results: list = [None] * n
+    if n == 0:
+        return results
+    ctx = mp.get_context("fork")
+    workers = min(workers or NCPU, n)
+    procs = {}
+
+    def spawn():
+        a, b = ctx.Pipe()
+        p = ctx.Process(target=_safe_worker, args=(fn, b), daemon=True)
+        p.start()
+        b.close()
+        procs[a] = [p, None, 0.0]
+
+    for _ in range(workers):
+        spawn()
+    nxt = 0
+    done = 0
+    try:
+        while done < n:
+            for conn, st in list(procs.items()):
+                if st[1] is None and nxt < n:
+                    conn.send((nxt, items[nxt]))
+                    st[1] = nxt
+                    st[2] = time.time()
+                    nxt += 1
+            busy = [c for c, st in procs.items() if st[1] is not None]
+            ready = wait(busy, timeout=1.0)
+            for conn in ready:
+                st = procs[conn]
+                try:
+                    i, ok, val = conn.recv()
+                except (EOFError, OSError):
+                    results[st[1]] = MachineryErrorResult("worker died")
+                    done += 1
+                    st[0].kill()
+                    del procs[conn]
+                    spawn()
+                    continue
+                results[i] = val if ok else MachineryErrorResult(val)
+                st[1] = None
+                done += 1
+            now = time.time()
+            for conn, st in list(procs.items()):
+                if st[1] is not None and now - st[2] > timeout:
+                    results[st[1]] = HANG
+                    done += 1
+                    st[0].kill()
+                    del procs[conn]
+                    spawn()
+    finally:
+        for conn, st in procs.items():
+            try:
+                conn.send(None)
+            except Exception:  # noqa: BLE001
+                pass
+        for conn, st in procs.items():
+            st[0].join(timeout=0.5)
+            if st[0].is_alive():
+                st[0].kill()
+    return results
